@@ -12,7 +12,7 @@ from core import Result
 from mq import Query, run_queries, record
 import optreplay
 
-MAXC = 16
+MAXC = 60
 
 
 def scenarios(prop, tier, seed):
@@ -28,9 +28,14 @@ def scenarios(prop, tier, seed):
     fin_h = [T.fcmp("fle", 0.0, fin), T.fcmp("fle", fin, 100.0)]
     rat_h = [T.fcmp("fle", 0.0, rat), T.fcmp("fle", rat, 1.0)]
 
-    def sc(name, np, steps, inner, seed_, kt_start, kt_finish=None, kt_ratio=None, conv=None, sym_range=False, hyps=(), flags=("bad_held",), tier_="quick"):
+    def sc(name, np, steps, inner, seed_, kt_start, kt_finish=None, kt_ratio=None, conv=None, sym_range=False, hyps=(), flags=("bad_held",), tier_="quick", valid=None, score=None):
         out.append(dict(name=name, np=np, steps=steps, inner=inner, seed=seed_, kt_start=kt_start, kt_finish=kt_finish, kt_ratio=kt_ratio,
-                        conv=conv, sym_range=sym_range, hyps=base_h + list(hyps), flags=flags, tier=tier_))
+                        conv=conv, sym_range=sym_range, hyps=base_h + list(hyps), flags=flags, tier=tier_, valid=valid, score=score))
+    cv = F("conv")
+    cv_h = [T.fcmp("fle", -1.0, cv), T.fcmp("fle", cv, 10.0)]
+    REJ = lambda n: [None] + [False] * n          # calls 1..n invalid (forced rejections)
+    def ACC(n):                                    # calls 1..n valid with concrete, strictly increasing scores (forced acceptances)
+        return [None] + [True] * n, [None] + [float(10 * (k + 1)) for k in range(n)]
     if prop == "C05":
         sc("kt0_finish_s4i2", 2, 4, 2, s1, 0.0, kt_finish=fin, hyps=fin_h)
         sc("kt0_ratio_s4i2", 2, 4, 2, s2, 0.0, kt_ratio=rat, hyps=rat_h)
@@ -38,6 +43,7 @@ def scenarios(prop, tier, seed):
         sc("kt0_finish_s6i3_np3", 3, 6, 3, s2, 0.0, kt_finish=fin, hyps=fin_h)
         sc("kt0_finish_s8i2", 2, 8, 2, s1, 0.0, kt_finish=fin, hyps=fin_h, tier_="thorough")
         sc("kt0_finish_s6i1", 2, 6, 1, s2, 0.0, kt_finish=fin, hyps=fin_h, tier_="thorough")
+        sc("kt0_finish_conv_s4i2", 2, 4, 2, s1, 0.0, kt_finish=fin, conv=cv, hyps=fin_h + cv_h)
     elif prop == "C06":
         sc("kt0_s4i2", 2, 4, 2, s1, 0.0, flags=("bad_held", "multi_param"))
         sc("ktpos_ratio_s4i2", 2, 4, 2, s2, kt, kt_ratio=rat, hyps=kt_pos + rat_h, flags=("bad_held", "multi_param"))
@@ -57,6 +63,11 @@ def scenarios(prop, tier, seed):
         sc("kt0_finish_s4i2", 2, 4, 2, s2, 0.0, kt_finish=fin, hyps=fin_h)
         sc("finish_s6i3", 2, 6, 3, s1, 0.5, kt_finish=fin, hyps=fin_h)
         sc("finish_s8i2", 2, 8, 2, s2, kt, kt_finish=fin, hyps=kt_pos + fin_h, tier_="thorough")
+        # long histories with few forks: n forced rejections (the step size collapses), then free steps
+        sc("ratio_rej16_s18i1", 2, 18, 1, s1, 1.0, kt_ratio=0.5, valid=REJ(16))
+        sc("ratio_rej24_s26i2", 2, 26, 2, s2, 1.0, kt_ratio=0.25, valid=REJ(24), tier_="thorough")
+        av, asc = ACC(8)
+        sc("finish_acc8_s10i2", 2, 10, 2, s1, 1.0, kt_finish=fin, hyps=fin_h, valid=av, score=asc)
     elif prop == "C19":
         sc("kt0_s4i2", 2, 4, 2, s1, 0.0, flags=("big_move", "multi_param"))
         sc("kt0_s6i2", 2, 6, 2, s2, 0.0, flags=("big_move", "multi_param"))
@@ -65,6 +76,9 @@ def scenarios(prop, tier, seed):
         sc("ktpos_s3i1_np3", 3, 3, 1, s1, kt, kt_ratio=rat, hyps=kt_pos + rat_h, flags=("big_move", "multi_param"))
         sc("kt0_s6i3", 2, 6, 3, s1, 0.0, flags=("big_move", "multi_param"))
         sc("kt0_s8i2", 2, 8, 2, s2, 0.0, flags=("big_move", "multi_param"), tier_="thorough")
+        av, asc = ACC(6)
+        sc("kt0_acc6_s8i2", 2, 8, 2, s1, 0.0, flags=("big_move", "multi_param"), valid=av, score=asc)
+        sc("kt0_rej6_acc_s10i2", 2, 10, 2, s2, 0.0, flags=("big_move", "multi_param"), valid=REJ(6) + [True] * 2, score=[None] * 7 + [50.0, 60.0])
         sc("kt0_s9i3", 2, 9, 3, s1, 0.0, sym_range=True, flags=("big_move", "multi_param"), tier_="thorough")
     elif prop == "C08":
         sc("kt0_s4i2_range", 3, 4, 2, s1, 0.0, sym_range=True, flags=("out_of_range",))
@@ -75,6 +89,12 @@ def scenarios(prop, tier, seed):
             sc("count_s%di%d" % (stp, inn), 2, stp, inn, s1, 0.0, kt_finish=fin, hyps=fin_h, flags=("count",))
         sc("count_ktpos_s3i2", 2, 3, 2, s2, kt, kt_ratio=rat, hyps=kt_pos + rat_h, flags=("count",))
         sc("count_s7i2", 2, 7, 2, s2, 0.0, flags=("count",), tier_="thorough")
+        # convergence: threshold symbolic; frozen histories (forced rejections) and free ones
+        sc("conv_rej_s8i1", 2, 8, 1, s1, 0.0, conv=cv, hyps=cv_h, flags=("count",), valid=REJ(8))
+        sc("conv_rej_s14i2", 2, 14, 2, s2, 0.0, conv=cv, hyps=cv_h, flags=("count",), valid=REJ(14))
+        av, asc = ACC(7)
+        sc("conv_acc_s7i1", 2, 7, 1, s1, 0.0, conv=cv, hyps=cv_h, flags=("count",), valid=av, score=asc)
+        sc("conv_free_s7i1", 2, 7, 1, s2, 0.0, conv=cv, hyps=cv_h, flags=("count",), tier_="thorough")
     return [s for s in out if tier == "thorough" or s["tier"] == "quick"]
 
 
@@ -95,7 +115,8 @@ def build_spec(scn, symbolic_draws=False):
     nsteps = max(steps, 1) + 2
     stream = mopt.native_stream(scn["seed"], np_, nsteps)
     spec = Spec(np_, steps, scn["inner"], scn["kt_start"], scn["kt_finish"], scn["kt_ratio"], F("maxstep"), scn["conv"], lo, hi, init,
-                stream["index"], None if symbolic_draws else stream["move"], None if symbolic_draws else stream["accept"])
+                stream["index"], None if symbolic_draws else stream["move"], None if symbolic_draws else stream["accept"],
+                script_valid=scn.get("valid"), script_score=scn.get("score"))
     return spec, hyps
 
 
@@ -110,9 +131,11 @@ def model_to_replay(scn, spec, arm, model):
     valid = 0
     score = [0.0] * MAXC
     for t in range(1, MAXC):
-        if model.get("valid%d" % t, False):
+        sv = spec.script_valid[t] if (spec.script_valid is not None and t < len(spec.script_valid)) else None
+        ss = spec.script_score[t] if (spec.script_score is not None and t < len(spec.script_score)) else None
+        if (model.get("valid%d" % t, False) if sv is None else sv):
             valid |= (1 << t)
-        score[t] = g("s%d" % t, 0.0)
+        score[t] = g("s%d" % t, 0.0) if ss is None else float(ss)
     cfg = dict(steps=spec.steps, inner=spec.inner, kt_start=tv(spec.kt_start), kt_finish=None if spec.kt_finish is None else tv(spec.kt_finish),
                kt_ratio=None if spec.kt_ratio is None else tv(spec.kt_ratio), max_step=tv(spec.max_step), conv=None if spec.conv is None else tv(spec.conv),
                seed=scn["seed"], np=np_, lo=lo, hi=hi)
@@ -142,15 +165,6 @@ def arm_queries(scn, spec, hyps, arms, panics, flag, tier, robust=False):
             if msg == "unreachable":
                 continue  # match arms the compiler marks unreachable; infeasible by construction of the discriminant
             out.append((Query("panic%d" % k, allh + list(pc), timeout=to, meta=dict(msg=msg[:80], fn=fn[-40:])), None))
-        return out
-    if flag == "count":
-        inner_eff = max(1, min(spec.inner, spec.steps))
-        for k, a in enumerate(arms):
-            n = a["calls"] - 1
-            cands = {n, n - 1} if n > 0 else {0}
-            ok = any((p >= 0 and p <= spec.steps and p + inner_eff > spec.steps) or (spec.steps == 0 and p == 0) for p in cands)
-            if not ok:
-                out.append((Query("count%d" % k, allh + a["pc"], timeout=to, meta=dict(calls=a["calls"])), a))
         return out
     for k, a in enumerate(arms):
         v = T.bor(*a["viol"][flag])
